@@ -288,6 +288,28 @@ def part_convert(ctx, shard):
                         ctx.violation(f"C18|convert|route={rname}|dtype={dtype}|outcome={st}|mode=copying-call-changed-input:{d}", case, "unchanged", d)
                     if inplace and st == "raise" and d in ("numbers", "unit", "parent-numbers", "parent-unit", "shape"):
                         ctx.violation(f"C18|convert|route={rname}|dtype={dtype}|mode=failed-in-place-call-changed-target:{d}", case, type(r).__name__, d)
+            # the argument-free twins: a successful in-place call yields exactly what the copying call yields - also for data
+            # bound to a registry that was created with another default unit system
+            if form in ("base", "strided") and dtype in ("float64", "int64", "float32"):
+                from unyt.unit_registry import UnitRegistry as _UR2
+
+                twins = [("in_base", "convert_to_base"), ("in_base(cgs)", "convert_to_base(cgs)"), ("in_cgs", "convert_to_cgs"), ("in_mks", "convert_to_mks")]
+                for regsys, (cname, iname) in itertools.product((None, "cgs", "imperial", "galactic"), twins):
+                    ctx.count("evaluations")
+                    mkreg = (lambda: None) if regsys is None else (lambda: _UR2(unit_system=regsys))
+                    q1, q2 = mkq(data, src_unit, form, registry=mkreg()), mkq(data, src_unit, form, registry=mkreg())
+                    st1, r1 = run_call(lambda: NOARG_COPY[cname](q1))
+                    st2, _ = run_call(lambda: NOARG_INPLACE[iname](q2))
+                    ctx.decided(("twin", cname, regsys, dtype, form, shape, src_unit))
+                    case = dict(case0, route=iname, registry_default=regsys)
+                    base = f"C18|twin|route={iname}|registry-default={regsys or 'mks'}|dtype={dtype}"
+                    if st1 != st2:
+                        ctx.violation(base + f"|mode=in-place-{st2}-but-copy-{st1}", case, st1, st2)
+                    elif st1 == "ok":
+                        if str(r1.units) != str(q2.units) or r1.units != q2.units:
+                            ctx.violation(base + "|mode=in-place-unit-differs-from-copy", case, str(r1.units), str(q2.units))
+                        elif r1.dtype != q2.dtype or not np.array_equal(np.asarray(r1.d), np.asarray(q2.d)):
+                            ctx.violation(base + "|mode=in-place-numbers-differ-from-copy", case, np.asarray(r1.d).reshape(-1)[:4].tolist(), np.asarray(q2.d).reshape(-1)[:4].tolist())
 
 
 # ---- part: ufuncs -------------------------------------------------------------------------------------------------
@@ -362,13 +384,13 @@ def part_ufunc(ctx, shard):
                     return mkq(db, runit, form)
 
                 iop = {"add": operator.iadd, "subtract": operator.isub, "multiply": operator.imul, "true_divide": operator.itruediv, "floor_divide": operator.ifloordiv, "remainder": operator.imod, "power": operator.ipow}.get(name)
-                calls = ["call", "out", "out-wrong-shape", "out-left", "out-right"] + (["inplace-op"] if iop else [])
+                calls = ["call", "out", "out-int", "out-wrong-shape", "out-left", "out-right"] + (["inplace-op"] if iop else [])
                 for call, lunit in [(c, "m") for c in calls] + ([(c, lu) for c in ("call", "inplace-op") for lu in ("km/s/Mpc", "m**2/cm", "J/erg") if c in calls] if kname in ("bare", "dimless", "same") else []):
                     ctx.count("evaluations")
                     a, b = mkq(da, lunit, form), (mk_b() if not (kname == "same" and lunit != "m") else mkq(db, lunit, form))
                     if call == "out-right" and not isinstance(b, unyt_array):
                         continue
-                    outb = {"out": lambda: mkq(np.zeros(shape), "kg", "strided"), "out-wrong-shape": lambda: mkq(np.zeros((5,)), "kg", "strided"), "out-left": lambda: a, "out-right": lambda: b}.get(call, lambda: None)()
+                    outb = {"out": lambda: mkq(np.zeros(shape), "kg", "strided"), "out-int": lambda: mkq(np.arange(3, 3 + n).reshape(shape).astype("int64"), "kg", "strided"), "out-wrong-shape": lambda: mkq(np.zeros((5,)), "kg", "strided"), "out-left": lambda: a, "out-right": lambda: b}.get(call, lambda: None)()
                     sa, sb, so = snap(a), snap(b), snap(outb) if outb is not None else None
                     if call == "call":
                         st, r = run_call(lambda: uf(a, b))
@@ -698,6 +720,45 @@ def part_unit(ctx, shard):
                 ctx.violation(f"C18|unit|op={oname}|outcome={st}|mode=operand-changed", {"part": "unit", "u": n1, "v": n2, "op": oname}, (b1, b2), (udig(u), udig(v)))
         if {k: v for k, v in u.registry.lut.items() if k in lut_before} != lut_before:
             ctx.violation("C18|unit|mode=registry-row-changed", {"part": "unit", "u": n1}, None, None)
+        # data (op) Unit returns a NEW object: writing into the result afterwards must not reach the operand
+        base_arr = np.arange(1.0, 7.0)
+        holders = {
+            "ndarray": lambda: base_arr.copy(),
+            "ndarray-view": lambda: base_arr.copy()[::2],
+            "ndarray-0d": lambda: np.array(2.5),
+            "unyt_array": lambda: unyt_array(base_arr.copy(), "s"),
+            "unyt_array-view": lambda: unyt_array(base_arr.copy(), "s")[1:4],
+            "unyt_quantity": lambda: unyt_quantity(2.5, "s"),
+            "int-ndarray": lambda: np.arange(1, 5),
+        }
+        forms = {"data*unit": lambda d: d * u, "unit*data": lambda d: u * d, "data/unit": lambda d: d / u}
+        for (hname, mk), (fname, f) in itertools.product(holders.items(), forms.items()):
+            ctx.count("evaluations")
+            d = mk()
+            parent = d.base if isinstance(d, np.ndarray) and d.base is not None else d
+            before = (np.array(np.asarray(d), copy=True), np.array(np.asarray(parent), copy=True), str(getattr(d, "units", None)))
+            st, r = run_call(lambda: f(d))
+            ctx.outcome(("unit-data", fname, hname, st))
+            if st != "ok" or not isinstance(r, np.ndarray):
+                continue
+            ctx.decided(("unit-data", n1, hname, fname))
+            case = {"part": "unit", "u": n1, "op": fname, "holder": hname}
+            if np.shares_memory(np.asarray(r), np.asarray(parent)):
+                ctx.violation(f"C18|unit|op={fname}|holder={hname}|mode=result-shares-memory-with-operand", case, "new object", "alias")
+            # every in-place route on the result, then look at the operand again
+            for wname, wf in (("fill", lambda x: x.view(np.ndarray).fill(-7.0)), ("imul", lambda x: x.__imul__(3.0)), ("convert_to_base", lambda x: x.convert_to_base())):
+                r2 = f(mk()) if wname != "fill" else r
+                if wname != "fill":
+                    d2 = mk()
+                    parent2 = d2.base if isinstance(d2, np.ndarray) and d2.base is not None else d2
+                    r2 = f(d2)
+                    st2, _ = run_call(lambda: wf(r2))
+                    after = (np.asarray(d2), np.asarray(parent2), str(getattr(d2, "units", None)))
+                else:
+                    st2, _ = run_call(lambda: wf(r2))
+                    after = (np.asarray(d), np.asarray(parent), str(getattr(d, "units", None)))
+                if not (np.array_equal(after[0], before[0]) and np.array_equal(after[1], before[1]) and after[2] == before[2]):
+                    ctx.violation(f"C18|unit|op={fname}|holder={hname}|write={wname}|mode=writing-into-the-result-changed-the-operand", case, before[0].tolist(), np.asarray(after[0]).tolist())
     return names
 
 
